@@ -260,26 +260,26 @@ MUTS = [
     ('F18', 'preserve', 'C11', G, "        if idx_start < 0:\n            return\n", "        if idx_start == -1:\n            return\n"),
     ('F19', 'preserve', 'C12', G, "            print('Continuing on next message and ignoring error: {}'.format(e), file=sys.stderr)\n", "            print('Continuing with the next message, ignoring: {}'.format(e), file=sys.stderr)\n"),
     # ---- stage F/G (w5-codersrc, round 2): process_element_descriptor, process_bitmap_definition ----------------
-    ('F1', 'change', 'C01', K, "        if state.nbits_of_associated and X != 31:", "        if state.nbits_of_associated and X != 33:"),
-    ('F2', 'change', 'C01', K, "nbytes = state.new_nbytes if state.new_nbytes else descriptor.nbits // 8",
+    ('CF1', 'change', 'C01', K, "        if state.nbits_of_associated and X != 31:", "        if state.nbits_of_associated and X != 33:"),
+    ('CF2', 'change', 'C01', K, "nbytes = state.new_nbytes if state.new_nbytes else descriptor.nbits // 8",
      "nbytes = state.new_nbytes if state.new_nbytes else descriptor.nbits // 4"),
-    ('F3', 'change', 'C01', K, "refval = descriptor.refval * state.bsr_modifier.refval_factor", "refval = descriptor.refval + state.bsr_modifier.refval_factor"),
-    ('F4', 'change', 'C07', K, "            if state.status_qa_info_follows == QA_INFO_PROCESSING:\n                state.status_qa_info_follows = QA_INFO_NA",
+    ('CF3', 'change', 'C01', K, "refval = descriptor.refval * state.bsr_modifier.refval_factor", "refval = descriptor.refval + state.bsr_modifier.refval_factor"),
+    ('CF4', 'change', 'C07', K, "            if state.status_qa_info_follows == QA_INFO_PROCESSING:\n                state.status_qa_info_follows = QA_INFO_NA",
      "            if state.status_qa_info_follows == QA_INFO_PROCESSING:\n                state.status_qa_info_follows = QA_INFO_WAITING"),
-    ('F5', 'change', 'C01', K, "                     state.scale_offset +\n", "                     state.nbits_offset +\n"),
-    ('F6', 'preserve', 'C01', K, "nbytes = state.new_nbytes if state.new_nbytes else descriptor.nbits // 8",
+    ('CF5', 'change', 'C01', K, "                     state.scale_offset +\n", "                     state.nbits_offset +\n"),
+    ('CF6', 'preserve', 'C01', K, "nbytes = state.new_nbytes if state.new_nbytes else descriptor.nbits // 8",
      "nbytes = state.new_nbytes if state.new_nbytes != 0 else descriptor.nbits // 8"),
-    ('F7', 'preserve', 'C01', K, "        # Handle class 33 codes for QA information follows 222000 operator\n        if X == 33:",
+    ('CF7', 'preserve', 'C01', K, "        # Handle class 33 codes for QA information follows 222000 operator\n        if X == 33:",
      "        # Handle class 33 codes for QA information follows 222000 operator\n        if X == 30 + 3:"),
-    ('G1', 'change', 'C07', K, "            if descriptor.id == 31031:\n                state.bitmap_definition_state = BITMAP_BIT_COUNTING",
+    ('CG1', 'change', 'C07', K, "            if descriptor.id == 31031:\n                state.bitmap_definition_state = BITMAP_BIT_COUNTING",
      "            if descriptor.id == 31021:\n                state.bitmap_definition_state = BITMAP_BIT_COUNTING"),
-    ('G2', 'change', 'C07', K, "            if descriptor.id == 31031:\n                state.n_031031 += 1\n            else:",
+    ('CG2', 'change', 'C07', K, "            if descriptor.id == 31031:\n                state.n_031031 += 1\n            else:",
      "            if descriptor.id == 31031:\n                state.n_031031 += 2\n            else:"),
-    ('G3', 'change', 'C07', K, "                self.define_bitmap(state, state.most_recent_bitmap_is_for_reuse)\n                state.bitmap_definition_state = BITMAP_NA",
+    ('CG3', 'change', 'C07', K, "                self.define_bitmap(state, state.most_recent_bitmap_is_for_reuse)\n                state.bitmap_definition_state = BITMAP_NA",
      "                self.define_bitmap(state, state.most_recent_bitmap_is_for_reuse)\n                state.bitmap_definition_state = BITMAP_INDICATOR"),
-    ('G4', 'change', 'C07', K, "                log.debug('Defining bitmap for reuse')\n                state.most_recent_bitmap_is_for_reuse = True",
+    ('CG4', 'change', 'C07', K, "                log.debug('Defining bitmap for reuse')\n                state.most_recent_bitmap_is_for_reuse = True",
      "                log.debug('Defining bitmap for reuse')\n                state.most_recent_bitmap_is_for_reuse = False"),
-    ('G5', 'preserve', 'C07', K, "                state.most_recent_bitmap_is_for_reuse = False\n                state.bitmap_definition_state = BITMAP_WAITING_FOR_BIT\n                state.n_031031 = 0",
+    ('CG5', 'preserve', 'C07', K, "                state.most_recent_bitmap_is_for_reuse = False\n                state.bitmap_definition_state = BITMAP_WAITING_FOR_BIT\n                state.n_031031 = 0",
      "                state.most_recent_bitmap_is_for_reuse = False\n                state.n_031031 = 0\n                state.bitmap_definition_state = BITMAP_WAITING_FOR_BIT"),
     # ---- stage H: the end of Decoder.process_section (fragment process_section_finish, C04_src_finish_section_eq) ----
     ('H1', 'change', 'C04', G, "            elif nbits_unread < 0:\n", "            elif nbits_unread < -8:\n"),
@@ -307,6 +307,17 @@ MUTS = [
     ('M5', 'preserve', 'C01', K, "            if state.bitmap_definition_state != BITMAP_NA:\n                self.process_bitmap_definition(state, bit_operator, member)",
      "            if not state.bitmap_definition_state == BITMAP_NA:\n                self.process_bitmap_definition(state, bit_operator, member)"),
     ('M6', 'unsupported', 'C01', D, "        super(ReplicationDescriptor, self).__init__(id_)\n        self.members = members", "        super(ReplicationDescriptor, self).__init__(id_)\n        self.items = members"),
+    # ---- stage CH (w5-codersrc, last round): the composite descriptors ---------------------------------------------
+    ('CH1', 'change', 'C01', K, "        for _ in range(descriptor.n_repeats):", "        for _ in range(descriptor.n_repeats + 1):"),
+    ('CH2', 'change', 'C01', K, "        for _ in range(descriptor.n_repeats):", "        for _ in range(descriptor.n_items):"),
+    ('CH3', 'change', 'C01', K, "        if descriptor.id in (31011, 31012):", "        if descriptor.id in (31001, 31012):"),
+    ('CH4', 'change', 'C01', K, "        if type(descriptor.factor) is not ElementDescriptor:", "        if type(descriptor.factor) is ElementDescriptor:"),
+    ('CH5', 'change', 'C01', K, "        self.process_element_descriptor(state, bit_operator, descriptor.factor)\n        for _ in range(self.get_value",
+     "        for _ in range(self.get_value"),
+    ('CH6', 'change', 'C01', K, "    def process_sequence_descriptor(self, state, bit_operator, descriptor):\n        self.process_members(state, bit_operator, descriptor.members)",
+     "    def process_sequence_descriptor(self, state, bit_operator, descriptor):\n        self.process_members(state, bit_operator, descriptor.members + descriptor.members)"),
+    ('CH7', 'preserve', 'C01', K, "        for _ in range(self.get_value_for_delayed_replication_factor(state)):\n            self.process_members(state, bit_operator, descriptor.members)",
+     "        for _ in range(self.get_value_for_delayed_replication_factor(state)):\n            pass\n            self.process_members(state, bit_operator, descriptor.members)"),
 ]
 
 
